@@ -147,13 +147,24 @@ def _guards(ctx) -> None:
             continue
         it = SInterp(prog, g)
         S = ("param", g.params[0])
-        sites = [e for e in it.events if e.kind == "call" and e.term[1] == ("attr", S, "_replace_column") and len(e.term[2]) == 2]
+        sites = [e for e in it.events if e.kind == "call" and e.term[1] == ("attr", S, "_replace_column") and len(e.term[2]) >= 2]
         if not sites:
             continue
         n_funcs += 1
         bad = []
         for e in sites:
             why = _length_guard_problem(it, S, e.conds, e.term[2][1])
+            if why:
+                # ... or the guard lives in _replace_column itself, on every path to its storage swap
+                rcf = prog.func("table.Table._replace_column")
+                ri = SInterp(prog, rcf)
+                RS = ("param", rcf.params[0])
+                swaps = [x for x in ri.events if x.kind == "store" and x.term == ("attr", RS, "_underlying")]
+                inner = [_length_guard_problem(ri, RS, x.conds, None) for x in swaps]
+                if swaps and not any(inner):
+                    why = None
+                elif swaps and any(w and "skipped unless" in w for w in inner):
+                    why = next(w for w in inner if w and "skipped unless" in w)
             if why:
                 bad.append((why, e.node))
         ctx.ob("a.length-guard", g, "replace", not bad, f"{len(sites)} replacement(s) of a column are length-checked", bad[0][1] if bad else g.node,
@@ -191,16 +202,24 @@ def _guards(ctx) -> None:
 def _length_guard_problem(it, S, conds, val) -> Optional[str]:
     """None if the path condition guarantees len(val) == self._length (or that the table has no columns)."""
     from ..symx import show
-    ln = ("call", ("name", "len"), (val,), ())
-    tl = ("attr", S, "_length")
+    ln = ("call", ("name", "len"), (val,), ()) if val is not None else None
+    tls = (("attr", S, "_length"), ("call", ("name", "len"), (S,), ()))       # the recorded row count / len(self), which returns it
     has_cols = ("attr", S, "_underlying")
 
+    def pair(t):
+        """the comparison is between the table's row count and the length of the incoming value (of SOME value when val is None)"""
+        a_, b_ = t[2], t[3]
+        for x, y in ((a_, b_), (b_, a_)):
+            if x in tls and (y == ln if ln is not None else (y[0] == "call" and y[1] == ("name", "len") and len(y[2]) == 1 and y[2][0] != S)):
+                return True
+        return False
+
     def is_ne(t):
-        return t[0] == "cmp" and t[1] == "NotEq" and {t[2], t[3]} == {ln, tl}
+        return t[0] == "cmp" and t[1] == "NotEq" and pair(t)
 
     def is_eq(t):
-        return t[0] == "cmp" and t[1] == "Eq" and {t[2], t[3]} == {ln, tl}
-    why = f"no raising guard `len({show(val, it)[:40]}) != self._length` dominates the replacement"
+        return t[0] == "cmp" and t[1] == "Eq" and pair(t)
+    why = f"no raising guard `len({show(val, it)[:40] if val is not None else '<value>'}) != self._length` dominates the replacement"
     for t, pol in conds:
         if is_eq(t) and pol:
             return None
@@ -524,6 +543,15 @@ def _structural(ctx) -> None:
         ctx.ob("e.structural-ops", h, "no-kind-refusal", not bad, f"{q.split('.')[-1]} refuses no operand for its dtype", h.node,
                message=f"{q}: " + "; ".join(bad[:2]) + ": two non-nullable vectors of different kinds cannot be stacked / concatenated although "
                        "the same values are accepted once a None occurs or the operand is a list")
+    # t[i]: the i-th row exists exactly for -len(t) <= i < len(t) (shared with C07.d): the row view and the columns agree on which
+    # positions exist
+    from .c07 import row_bounds_exact
+    rb = row_bounds_exact(prog)
+    if rb is None:
+        raise AnalysisError("Table.__getitem__: the row-bounds condition is outside the integer-comparison fragment")
+    tgi = prog.func("table.Table.__getitem__")
+    ctx.ob("e.structural-ops", tgi, "int-row-bounds", not rb, "t[i] raises IndexError exactly outside [-len(t), len(t))", tgi.node,
+           message="Table.__getitem__(int): " + "; ".join(rb[:3]) + " - the row view and the columns disagree on which positions exist")
     # other >> table (reflected): a table on the right contributes its COLUMNS, it is not one column
     rr = prog.func("vector.Vector.__rrshift__")
     ri = interp_of(prog, rr)
